@@ -5,7 +5,9 @@ Case (JSON):
    "via": "register" | "notify"      (event-based variants: feed through notify(Event / TimedEvent))
    "cls": label of the data class the generator used (informative only)
    "t0":  first timestamp (int or float.hex()), timestamped variants only
-   "ops": weighted:     ["r", w, x] | ["blk", n, seed, [gen,a,b], [wgen,wa,wb], pz] | ["init"] | ["bad", what]
+   "ops": both:         ["q", which, a, x]  the observation (a, x) with the value / the weight or time / both given as
+                                            quantities in their base unit (accepted as their float value or refused)
+          weighted:     ["r", w, x] | ["blk", n, seed, [gen,a,b], [wgen,wa,wb], pz] | ["init"] | ["bad", what]
           timestamped:  ["r", dt, x]  register(last+dt, x), dt >= 0 (|dt| is used; before the first observation of a
                                       period the sign is kept, so a period may start earlier than the previous one)
                         ["blk", n, seed, [gen,a,b], [wgen,wa,wb], pz]   dt from the weight generator
@@ -199,7 +201,9 @@ def strategy(tier):
             rop = st.tuples(wgt, val).map(lambda t: ["r", t[0], t[1]])
             bad = st.sampled_from(["neg-weight", "neg-tiny", "nan-weight", "nan-value", "str-weight", "none-value",
                                    "str-value", "none-weight"]).map(lambda w: ["bad", w])
-            op = st.one_of(rop, rop, rop, rop, rop, rop, rop, blk, st.just(["init"]), bad)
+            qop = st.tuples(st.sampled_from(["value", "weight", "both"]), wgt, val).map(
+                lambda t: ["q", t[0], t[1], t[2]])
+            op = st.one_of(rop, rop, rop, rop, rop, rop, rop, blk, st.just(["init"]), bad, qop)
             ops = draw(st.lists(op, min_size=draw(st.sampled_from([1, 4, 8])), max_size=maxops))
             return {"variant": variant, "via": via, "cls": vcls + "/" + wcls, "ops": ops}
         # timestamped: periods  observations.. [early] [end, observations after closing..] [init]
@@ -218,7 +222,9 @@ def strategy(tier):
         bad = st.sampled_from(["nan-time", "nan-value", "str-time", "none-value", "str-value"]).map(lambda w: ["bad", w])
         ops = []
         for _ in range(draw(st.integers(1, 3))):
-            ops += draw(st.lists(st.one_of(rop, rop, rop, rop, rop, blk, early, bad),
+            qop = st.tuples(st.sampled_from(["value", "time", "both"]), wgt, val).map(
+                lambda t: ["q", t[0], t[1], t[2]])
+            ops += draw(st.lists(st.one_of(rop, rop, rop, rop, rop, blk, early, bad, qop),
                                  min_size=draw(st.sampled_from([0, 3, 6])), max_size=maxops // 3))
             if draw(st.integers(0, 5)) > 0:
                 ops.append(["end", draw(wgt)])
@@ -404,11 +410,16 @@ def _check_weighted_values(out, got, m, prefix="", unbiased=True):
              _sqrt_tol(A2 * f, math.sqrt(vu)), {"M": m.M})
 
 
+def _plain(c):
+    """the float value of a float subclass (a quantity handed in as observation may be published as it came)"""
+    return float.__float__(c) if isinstance(c, float) and type(c) is not float else c
+
+
 def _check_published(out, events, got, x):
     seen = {}
     for tname, content in events:
         seen[tname] = content
-    if "OBSERVATION_ADDED_EVENT" in seen and not (seen["OBSERVATION_ADDED_EVENT"] == x):
+    if "OBSERVATION_ADDED_EVENT" in seen and not (_plain(seen["OBSERVATION_ADDED_EVENT"]) == x):
         out.fail("publish:observation", {"got": _enc(seen["OBSERVATION_ADDED_EVENT"]), "want": _enc(x)})
     for tname, gname in PUBLISHED.items():
         g = got.get(gname)
@@ -487,10 +498,12 @@ def run_case(case):
 def _register(ctx, a, x, model, what="register"):
     """feed one accepted observation; a raising register is a totality failure (subscriber variants)."""
     out, rec = ctx["out"], ctx["rec"]
-    if rec is not None:
+    if rec is not None and not ctx.get("already_fed"):
         del rec.events[:]
     try:
-        if what == "end":
+        if ctx.pop("already_fed", False):
+            pass                       # (a quantity observation that was fed - and accepted - by the caller)
+        elif what == "end":
             ctx["stat"].end_observations(a)
         else:
             ctx["feed"](a, x)
@@ -519,6 +532,30 @@ def _reject(ctx, a, x, want, extra=(), may_ignore=False):
     if before != after:
         out.fail("reject:state-changed", {"input": [repr(a), repr(x)], "before": before, "after": after})
     out.label("rejected-input")
+
+
+def _quantity_observation(ctx, which, a, x, extra=()):
+    """feed (a, x) with one or both operands given as quantities in their base unit (float subclasses whose float
+    value is a / x).  Returns True when it was accepted (the caller then books the plain observation); a refusal
+    must leave every getter unchanged."""
+    from pydsol.core.units import Duration, Length
+    out, stat, rec = ctx["out"], ctx["stat"], ctx["rec"]
+    qa = Duration(a, "s") if which in ("weight", "time", "both") else a
+    qx = Length(x, "m") if which in ("value", "both") else x
+    before = _snapshot(stat, extra)
+    if rec is not None:
+        del rec.events[:]
+    try:
+        ctx["feed"](qa, qx)
+    except Exception as e:                                        # noqa: BLE001
+        after = _snapshot(stat, extra)
+        if before != after:
+            out.fail("reject:state-changed", {"input": [repr(qa), repr(qx)], "error": repr(e), "before": before,
+                                              "after": after})
+        out.label("quantity-observation-rejected")
+        return False
+    out.label("quantity-observation-accepted")
+    return True
 
 
 def _run_weighted(ctx):
@@ -584,6 +621,12 @@ def _run_weighted(ctx):
             w, x = _dec(op[1]), _dec(op[2])
             if _finite(w) and _finite(x) and w >= 0:
                 observe(w, x, True)
+        elif name == "q":
+            w, x = _dec(op[2]), _dec(op[3])
+            if _finite(w) and _finite(x) and w >= 0:
+                if _quantity_observation(ctx, op[1], float(w), float(x)):
+                    ctx["already_fed"] = True
+                    observe(float(w), float(x), True)
         elif name == "blk":
             n, seed, vspec, wspec, pz = op[1], op[2], op[3], op[4], op[5]
             for i in range(n):
@@ -696,6 +739,13 @@ def _run_timed(ctx):
             dt, x = _dec(op[1]), _dec(op[2])
             if _finite(dt) and _finite(x):
                 observe(advance(dt), x, True)
+        elif name == "q":
+            dt, x = _dec(op[2]), _dec(op[3])
+            if _finite(dt) and _finite(x) and not closed:
+                t = float(advance(dt))
+                if math.isfinite(t) and _quantity_observation(ctx, op[1], t, float(x), TW_EXTRA):
+                    ctx["already_fed"] = True
+                    observe(t, float(x), True)
         elif name == "blk":
             n, seed, vspec, wspec, pz = op[1], op[2], op[3], op[4], op[5]
             for i in range(n):
